@@ -376,6 +376,12 @@ def content_equality(rep: Report, prog: Program) -> None:
         if isinstance(g.iter, ast.Call) and callee_last(g.iter) == 'enumerate' and src_ok and not g.ifs \
                 and isinstance(g.target, ast.Tuple) and norm(d.key) == norm(g.target.elts[1]) and norm(d.value) == norm(g.target.elts[0]):
             ok = True
+    # the same map built as dict(zip(S, range(len(S)))) over the stored list
+    sv = f"{init.positional_params()[0]}.values"
+    for c in [x for x in own_nodes(init.node) if isinstance(x, ast.Call) and callee_last(x) == 'dict' and len(x.args) == 1 and isinstance(x.args[0], ast.Call) and callee_last(x.args[0]) == 'zip']:
+        za = [norm(a) for a in c.args[0].args]
+        if za in ([sv, f"range(len({sv}))"], [sv, f"range(0, len({sv}))"], [sv, 'count()'], [sv, 'itertools.count()']):
+            ok = True
     rep.ob(rule, init.fq(), 'value index = {v: i for (i, v) in enumerate(<the stored list>)}: the same sequence as self.values, not a second pass over the argument', init.loc(), ok,
            '' if ok else 'the index is not built from the stored value list (an iterator argument is empty on its second pass: contains() and numberize() then disagree)')
     nb, dn = fd.methods.get('numberize'), fd.methods.get('denumberize')
